@@ -3,12 +3,13 @@ from . import common as K
 TITLE = "no partial file passes for a complete one; no I/O failure reported as success: header-last, must-flush, error discipline"
 EXPLANATION = (
     "A non-zero magic reaches the file only through write_info, which every write entry point calls last (after at least four pipeline "
-    "stages, only Ok(()) follows); the blank header is zeros; write_info starts with a seek (which flushes the BufWriter) so everything "
-    "written earlier has reached the sink before the magic; every BufWriter on the write path is flushed with `?` before success is "
+    "stages, only Ok(()) follows); the blank header is zeros; inside write_info the total summary, the item count, the trailing magic and the header from "
+    "byte 4 are all emitted before the magic at byte 0, which is its last emission (each seek flushes the BufWriter), so nothing the magic vouches for is "
+    "still unwritten when a reader would accept the file; the converters never report success after creating the output and then refusing the input; every BufWriter on the write path is flushed with `?` before success is "
     "reported; no Result-returning call on the write path is discarded and every joined task's Result is propagated.")
 UNDECIDED = "crash points and fault sequences are not enumerated; what a reader makes of each file prefix needs the bytes."
 ASSUMPTIONS = ["BufWriter::seek flushes its buffer before seeking; BufWriter::drop ignores flush errors", "a reader rejects a file whose first four bytes are zero (magic check C10-T1)"]
 OBLIGATIONS = [K.MAGIC_OWNER, K.HEADER_LAST, K.MUST_FLUSH, K.ERR_DISC, K.JOIN_RESULTS, K.WRITER_LAYOUT[0], K.WRITER_LAYOUT[1], K.WRITER_UPDATE, K.CONSUMER]
 # type-resolved rules over the MIR facts (tools/bt-mir)
 OBLIGATIONS = OBLIGATIONS + [K.MIR_RESULTS]
-OBLIGATIONS = OBLIGATIONS + [K.EMPTY_AND_TOOL_REFUSALS, K.WRITER_LAYOUT[1]]
+OBLIGATIONS = OBLIGATIONS + [K.EMPTY_AND_TOOL_REFUSALS]
